@@ -1,9 +1,11 @@
 (** C48: HTTP Digest credentials (twisted/cred/credentials.py DigestCredentialFactory,
     DigestedCredentials; twisted/cred/_digest.py), acceptance logic on parsed fields.
 
-    Bytes are [list N].  The regular-expression field parser of [decode] is outside this model:
-    a response is the list of (key, value) pairs it yields.  The hash ("hexlified digest of
-    algorithm a") and base64 are parameters; Run.v instantiates them for the correspondence run.
+    Bytes are [list N].  The acceptance logic works on the list of (key, value) pairs; the raw front end of
+    decode() -- splitlines / join, the key=value regular expression scanned by findall, strip, the ASCII
+    check on field names -- is modelled at the end of this file ([parse_fields], [decode_raw]).  The hash
+    ("hexlified digest of algorithm a") and base64 are parameters; Run.v instantiates them for the
+    correspondence run.
     This is the REPAIRED behaviour (fixes/C48-*.patch): undecodable base64 in the opaque is a
     LoginFailed; checkPassword answers False when the digest-uri is missing, the algorithm is
     unknown, qop is auth-int, or the algorithm is md5-sess without a cnonce. *)
